@@ -1,6 +1,7 @@
 package format //nolint:revive
 
 import (
+	"bytes"
 	"encoding/hex"
 	"fmt"
 	"strconv"
@@ -42,6 +43,12 @@ func (f *MPEG4Video) unmarshal(ctx *unmarshalContext) error {
 			f.Config, err = hex.DecodeString(val)
 			if err != nil {
 				return fmt.Errorf("invalid config: %v", val)
+			}
+
+			// a start code prefix at the very end of the config is not followed by a start code.
+			// mpeg4video.IsValidConfig() reads past the end of the buffer in that case.
+			if bytes.HasSuffix(f.Config, []byte{0, 0, 1}) {
+				return fmt.Errorf("invalid config: truncated start code")
 			}
 
 			err = mpeg4video.IsValidConfig(f.Config)
